@@ -10,46 +10,49 @@ import (
 
 // Config is the generated server configuration and cast of a script.
 type Config struct {
-	AllocLifetimeS int   `json:"alloc_lifetime_s"` // 0 = library default (10 min)
-	PermTimeoutS   int   `json:"perm_timeout_s"`   // 0 = default (5 min)
-	ChanTimeoutS   int   `json:"chan_timeout_s"`   // 0 = default (10 min)
-	InboundMTU     int   `json:"inbound_mtu"`      // 0 = default (1600)
-	Strict         bool  `json:"strict_family"`
-	Clients        []int `json:"clients"`   // indices into the client address pool
-	Deny           []int `json:"deny"`      // peer-pool indices the permission handler refuses
-	DenyClient     int   `json:"deny_client"` // -1: deny for everybody; else only for this client index
-	DenyAfterS     int   `json:"deny_after_s,omitempty"` // >0: the deny list only applies from this many seconds after start
-	NoAuth         bool  `json:"no_auth,omitempty"`     // no AuthHandler configured
-	Quota          int   `json:"quota,omitempty"`       // >0: at most this many allocations per user (QuotaHandler)
-	GenFailAt      int   `json:"gen_fail_at,omitempty"` // >0: the n-th relay allocation attempt fails
-	CallbackSleepS int   `json:"callback_sleep_s,omitempty"`
-	SlowCallback   string `json:"slow_callback,omitempty"` // which lifecycle callback sleeps
-	DualStack      bool  `json:"dual_stack,omitempty"`  // the UDP listener is the dual-stack wildcard socket [::]:3478 and serves both families
-	ServerV6       bool  `json:"server_v6,omitempty"`   // the UDP listener is bound to an IPv6 address
-	Stream         []int `json:"stream_clients,omitempty"` // client indices that talk to the server over a TCP control connection
+	AllocLifetimeS int    `json:"alloc_lifetime_s"` // 0 = library default (10 min)
+	PermTimeoutS   int    `json:"perm_timeout_s"`   // 0 = default (5 min)
+	ChanTimeoutS   int    `json:"chan_timeout_s"`   // 0 = default (10 min)
+	InboundMTU     int    `json:"inbound_mtu"`      // 0 = default (1600)
+	Strict         bool   `json:"strict_family"`
+	Clients        []int  `json:"clients"`                // indices into the client address pool
+	Deny           []int  `json:"deny"`                   // peer-pool indices the permission handler refuses
+	DenyClient     int    `json:"deny_client"`            // -1: deny for everybody; else only for this client index
+	DenyAfterS     int    `json:"deny_after_s,omitempty"` // >0: the deny list only applies from this many seconds after start
+	NoAuth         bool   `json:"no_auth,omitempty"`      // no AuthHandler configured
+	Quota          int    `json:"quota,omitempty"`        // >0: at most this many allocations per user (QuotaHandler)
+	GenFailAt      int    `json:"gen_fail_at,omitempty"`  // >0: the n-th relay allocation attempt fails
+	CallbackSleepS int    `json:"callback_sleep_s,omitempty"`
+	SlowCallback   string `json:"slow_callback,omitempty"`  // which lifecycle callback sleeps
+	StreamWindow   int    `json:"stream_window,omitempty"`  // stream clients' receive window in bytes (0 = unbounded): the server's writes block while that much is unread
+	DualStack      bool   `json:"dual_stack,omitempty"`     // the UDP listener is the dual-stack wildcard socket [::]:3478 and serves both families
+	ServerV6       bool   `json:"server_v6,omitempty"`      // the UDP listener is bound to an IPv6 address
+	Stream         []int  `json:"stream_clients,omitempty"` // client indices that talk to the server over a TCP control connection
 }
 
 // Step is one scripted action. Everything is symbolic (indices into pools) and resolved against
 // the model at execution time.
 type Step struct {
-	Op     string `json:"op"`
-	C      int    `json:"c,omitempty"`       // client index
-	U      int    `json:"u,omitempty"`       // user index; 0 = the client's own user, k>0 = user k-1
-	P      []int  `json:"p,omitempty"`       // peer pool indices
-	Ch     int    `json:"ch,omitempty"`      // channel slot index
-	Life   int64  `json:"life,omitempty"`    // LIFETIME seconds; -1 = attribute absent
-	N      int    `json:"n,omitempty"`       // payload length / sleep seconds / misc
-	Seed   uint64 `json:"seed,omitempty"`    // payload content
-	Rel    string `json:"rel,omitempty"`     // sleep target: "" absolute, alloc-/alloc+/perm-/perm+/chan-/chan+
-	Defect string `json:"defect,omitempty"`  // credential defect (C03)
-	Retx   bool   `json:"retx,omitempty"`    // Allocate: reuse the transaction id of the client's last Allocate
-	TxFrom int    `json:"tx_from,omitempty"` // >0: reuse the last transaction id of client TxFrom-1
-	Fam    int    `json:"fam,omitempty"`     // REQUESTED-ADDRESS-FAMILY: 0 absent, 1 v4, 2 v6, 3 invalid value
-	Tcp    bool   `json:"tcp,omitempty"`     // Allocate: REQUESTED-TRANSPORT TCP
-	Opt    string `json:"opt,omitempty"`     // Allocate option: evenport | token | token+even | dontfrag | notransport | badtransport | token+fam
-	Content string `json:"content,omitempty"` // payload content class: "" random, zero, stun, chandata, x4000
-	Pad    string `json:"pad,omitempty"`     // ChannelData from client: "" padded, none
-	RespLost bool `json:"resp_lost,omitempty"` // the listener socket fails to write the response (CreatePermission / ChannelBind)
+	Op       string `json:"op"`
+	C        int    `json:"c,omitempty"`       // client index
+	U        int    `json:"u,omitempty"`       // user index; 0 = the client's own user, k>0 = user k-1
+	P        []int  `json:"p,omitempty"`       // peer pool indices
+	Ch       int    `json:"ch,omitempty"`      // channel slot index
+	Life     int64  `json:"life,omitempty"`    // LIFETIME seconds; -1 = attribute absent
+	N        int    `json:"n,omitempty"`       // payload length / sleep seconds / misc
+	Seed     uint64 `json:"seed,omitempty"`    // payload content
+	Rel      string `json:"rel,omitempty"`     // sleep target: "" absolute, alloc-/alloc+/perm-/perm+/chan-/chan+
+	Defect   string `json:"defect,omitempty"`  // credential defect (C03)
+	Retx     bool   `json:"retx,omitempty"`    // Allocate: reuse the transaction id of the client's last Allocate
+	TxFrom   int    `json:"tx_from,omitempty"` // >0: reuse the last transaction id of client TxFrom-1
+	Fam      int    `json:"fam,omitempty"`     // REQUESTED-ADDRESS-FAMILY: 0 absent, 1 v4, 2 v6, 3 invalid value
+	Tcp      bool   `json:"tcp,omitempty"`     // Allocate: REQUESTED-TRANSPORT TCP
+	Opt      string `json:"opt,omitempty"`     // Allocate option: evenport | token | token+even | dontfrag | notransport | badtransport | token+fam
+	Content  string `json:"content,omitempty"` // payload content class: "" random, zero, stun, chandata, x4000
+	Pad      string `json:"pad,omitempty"`     // ChannelData from client: "" padded, none
+	Stall    int    `json:"stall,omitempty"`   // PeerData: the (stream) client does not read for this many seconds while Burst datagrams arrive for it
+	Burst    int    `json:"burst,omitempty"`
+	RespLost bool   `json:"resp_lost,omitempty"` // the listener socket fails to write the response (CreatePermission / ChannelBind)
 }
 
 // Script is a whole case.
@@ -82,17 +85,17 @@ var (
 		{IP: net.ParseIP("fd00:1::2"), Port: 5001, User: 0},
 		// IPv6 clients whose address bytes resemble an IPv4 client's (need DualStack): the
 		// first four bytes, the last four bytes, and the IPv4-mapped prefix with another host.
-		{IP: net.ParseIP("0a01:0001::"), Port: 5000, User: 1},  // first 4 bytes = 10.1.0.1 (client 0)
-		{IP: net.ParseIP("0a01:0002::"), Port: 5000, User: 0},  // first 4 bytes = 10.1.0.2 (client 2)
-		{IP: net.ParseIP("::0a01:0001"), Port: 5001, User: 3},  // last 4 bytes = 10.1.0.1 (client 1), IPv4-compatible form
+		{IP: net.ParseIP("0a01:0001::"), Port: 5000, User: 1},      // first 4 bytes = 10.1.0.1 (client 0)
+		{IP: net.ParseIP("0a01:0002::"), Port: 5000, User: 0},      // first 4 bytes = 10.1.0.2 (client 2)
+		{IP: net.ParseIP("::0a01:0001"), Port: 5001, User: 3},      // last 4 bytes = 10.1.0.1 (client 1), IPv4-compatible form
 		{IP: net.ParseIP("::fffe:0a01:0003"), Port: 6000, User: 1}, // one bit off the IPv4-mapped form of client 3
 	}
 
 	PeerPool = []*net.UDPAddr{
 		{IP: net.IPv4(10, 2, 0, 1), Port: 7000},
-		{IP: net.IPv4(10, 2, 0, 1), Port: 7001}, // same IP as peer 0, other port
-		{IP: net.IPv4(10, 2, 0, 2), Port: 7000}, // other IP, same port
-		{IP: net.IPv4(10, 2, 0, 3), Port: 7000}, // usually operator-denied
+		{IP: net.IPv4(10, 2, 0, 1), Port: 7001},    // same IP as peer 0, other port
+		{IP: net.IPv4(10, 2, 0, 2), Port: 7000},    // other IP, same port
+		{IP: net.IPv4(10, 2, 0, 3), Port: 7000},    // usually operator-denied
 		{IP: net.ParseIP("fd00:2::1"), Port: 7000}, // IPv6 peer
 		{IP: net.IPv4(10, 2, 0, 4), Port: 9},
 		{IP: net.ParseIP("::ffff:10.2.0.2"), Port: 7000}, // IPv4-mapped form of peer 2's IP
@@ -104,7 +107,7 @@ var (
 		{"alice", "pw-alice"},
 		{"bob", "pw-bob"},
 		{"carol", "pw-carol"},
-		{"acme:1001", "pw-acme"},   // ids that differ only before / only after a colon
+		{"acme:1001", "pw-acme"}, // ids that differ only before / only after a colon
 		{"globex:1001", "pw-globex"},
 		{"acme:2002", "pw-acme2"},
 	}
